@@ -97,6 +97,7 @@ def network_simplex(
     parent = [root] * total_nodes
     parent[root] = -1
     pred = list(range(m, m + n)) + [-1]
+    tree_arcs = set(range(m, m + n))
     depth = [1] * total_nodes
     depth[root] = 0
     thread = list(range(1, total_nodes)) + [0]
@@ -225,60 +226,12 @@ def network_simplex(
                 state[arc] = 0
 
         if leaving != entering:
-            if leaving_first:
-                leaving_node = first
-                while pred[leaving_node] != leaving:
-                    leaving_node = parent[leaving_node]
-                new_parent = second
-            else:
-                leaving_node = second
-                while pred[leaving_node] != leaving:
-                    leaving_node = parent[leaving_node]
-                new_parent = first
-
-            prev_thread = rev_thread[leaving_node]
-            subtree_last = leaving_node
-            node = thread[leaving_node]
-            while depth[node] > depth[leaving_node]:
-                subtree_last = node
-                node = thread[node]
-
-            thread[prev_thread] = thread[subtree_last]
-            rev_thread[thread[subtree_last]] = prev_thread
-
-            attach_point = new_parent
-            node = thread[new_parent]
-            while node != new_parent and depth[node] > depth[new_parent]:
-                attach_point = node
-                node = thread[node]
-
-            thread[subtree_last] = thread[attach_point]
-            if thread[attach_point] < total_nodes:
-                rev_thread[thread[attach_point]] = subtree_last
-            thread[attach_point] = leaving_node
-            rev_thread[leaving_node] = attach_point
-
-            parent[leaving_node] = new_parent
-            pred[leaving_node] = entering
-
-            diff = depth[new_parent] + 1 - depth[leaving_node]
-            node = leaving_node
-            while True:
-                depth[node] += diff
-                node = thread[node]
-                if depth[node] <= depth[leaving_node] - diff or node == leaving_node:
-                    break
-
-            node = leaving_node
-            while True:
-                arc = pred[node]
-                if source[arc] == parent[node]:
-                    pi[node] = pi[parent[node]] - cost[arc]
-                else:
-                    pi[node] = pi[parent[node]] + cost[arc]
-                node = thread[node]
-                if depth[node] <= depth[new_parent] or node == leaving_node:
-                    break
+            # Basis change: drop the leaving arc, add the entering arc and re-derive the tree arrays from the
+            # basis. (Re-hanging the cut subtree below its old top node is only right when that node is an
+            # endpoint of the entering arc; otherwise the subtree has to be re-rooted.) O(n), like pricing.
+            tree_arcs.discard(leaving)
+            tree_arcs.add(entering)
+            _rebuild_tree(root, tree_arcs, source, target, cost, parent, pred, depth, pi)
 
     for arc in range(m, total_arcs):
         if flow[arc] > 0:
@@ -288,6 +241,29 @@ def network_simplex(
     flow_dict = {(source[i], target[i]): flow[i] for i in range(m) if flow[i] > 0}
 
     return Result(flow_dict, total_cost, iterations, total_arcs)
+
+
+def _rebuild_tree(root, tree_arcs, source, target, cost, parent, pred, depth, pi):
+    """Recompute parent/pred/depth/potentials of the spanning tree given by its arc set."""
+    adjacent = [[] for _ in parent]
+    for arc in tree_arcs:
+        adjacent[source[arc]].append(arc)
+        adjacent[target[arc]].append(arc)
+    seen = [False] * len(parent)
+    seen[root] = True
+    stack = [root]
+    while stack:
+        v = stack.pop()
+        for arc in adjacent[v]:
+            w = target[arc] if source[arc] == v else source[arc]
+            if seen[w]:
+                continue
+            seen[w] = True
+            parent[w] = v
+            pred[w] = arc
+            depth[w] = depth[v] + 1
+            pi[w] = pi[v] + cost[arc] if source[arc] == w else pi[v] - cost[arc]
+            stack.append(w)
 
 
 def _find_join(u, v, depth, parent):
